@@ -2561,10 +2561,6 @@ where
 ///
 /// Returns a [`DelaunayRepairError`] if the repair fails to converge or an underlying
 /// flip operation encounters an unrecoverable error.
-#[expect(
-    clippy::too_many_lines,
-    reason = "Repair retries and tracing are kept together for clarity"
-)]
 pub(crate) fn repair_delaunay_with_flips_k2_k3<K, U, V, const D: usize>(
     tds: &mut Tds<K::Scalar, U, V, D>,
     kernel: &K,
@@ -2581,6 +2577,32 @@ where
         return Err(FlipError::UnsupportedDimension { dimension: D }.into());
     }
 
+    // Snapshot the pre-repair state so a failed attempt doesn't poison retries, and so that
+    // an overall failure leaves the caller's triangulation exactly as it was.
+    let tds_snapshot = tds.clone();
+    let result = repair_delaunay_with_flips_k2_k3_attempts(tds, kernel, seed_cells, &tds_snapshot);
+    if result.is_err() {
+        *tds = tds_snapshot;
+    }
+    result
+}
+
+#[expect(
+    clippy::too_many_lines,
+    reason = "Repair retries and tracing are kept together for clarity"
+)]
+fn repair_delaunay_with_flips_k2_k3_attempts<K, U, V, const D: usize>(
+    tds: &mut Tds<K::Scalar, U, V, D>,
+    kernel: &K,
+    seed_cells: Option<&[CellKey]>,
+    tds_snapshot: &Tds<K::Scalar, U, V, D>,
+) -> Result<DelaunayRepairStats, DelaunayRepairError>
+where
+    K: Kernel<D>,
+    K::Scalar: ScalarSummable,
+    U: DataType,
+    V: DataType,
+{
     // In debug/test builds (especially for 3D+), prefer a fully-robust predicate pass.
     // This materially improves correctness in near-degenerate configurations.
     let attempt1 = RepairAttemptConfig {
@@ -2602,9 +2624,6 @@ where
         use_robust_on_ambiguous: true,
         max_flips_override: None,
     };
-    // Snapshot the pre-repair state so a failed attempt doesn't poison retries.
-    let tds_snapshot = tds.clone();
-
     let attempt1_result = if D == 2 {
         repair_delaunay_with_flips_k2_attempt(tds, kernel, seed_cells, &attempt1)
     } else {
@@ -2653,7 +2672,7 @@ where
             }
 
             // Final attempt with alternate queue order.
-            *tds = tds_snapshot;
+            *tds = tds_snapshot.clone();
             let stats3 = if D == 2 {
                 repair_delaunay_with_flips_k2_attempt(tds, kernel, retry_seed_cells, &attempt3)
             } else {
@@ -2700,7 +2719,7 @@ where
             }
 
             // Final attempt with alternate queue order.
-            *tds = tds_snapshot;
+            *tds = tds_snapshot.clone();
             let stats3 = if D == 2 {
                 repair_delaunay_with_flips_k2_attempt(tds, kernel, retry_seed_cells, &attempt3)
             } else {
